@@ -822,31 +822,11 @@ func init() {
 						}
 					}
 				}
-				if errObj == nil {
-					obs = append(obs, mkOb(c, "PAIR.frame", s.Unit, construct, s.Call, Violated, "PushFID's error result is not bound to a variable that is tested", true))
-					continue
-				}
 				recv, rok := PathOf(info, ast.Unparen(s.Call.Fun).(*ast.SelectorExpr).X)
-				isRelease := func(d *ast.DeferStmt) bool {
-					if originOf(Callee(info, d.Call)) != pop {
-						return false
-					}
-					se, ok := ast.Unparen(d.Call.Fun).(*ast.SelectorExpr)
-					if !ok {
-						return false
-					}
-					q, qok := PathOf(info, se.X)
-					return rok && qok && SamePath(recv, q)
-				}
-				ok, why, _ := acquireThenDefer(fc, loc, isRelease, errObj)
-				if ok {
-					obs = append(obs, mkOb(c, "PAIR.frame", s.Unit, construct, s.Call, Proved, "on the err==nil edge the next effectful node is `defer Pop()` on the same stack", true))
-					continue
-				}
-				// an acquire wrapper: `func (env) pushFrame(fun) *LVal { err := PushFID(...); if err != nil
-				// { return env.Error(err) }; return nil }` hands the pushed frame to its caller — it returns
-				// nil exactly when the frame is held — and the pairing is owed at each of ITS call sites
-				if k, wok := acquireWrapperResult(c, fc, s, loc, errObj); wok && rok {
+				// judgeWrapper: the function holding this site hands the pushed frame to its caller —
+				// result k is nil exactly when the frame is held — and the pairing is owed at each of
+				// ITS call sites
+				judgeWrapper := func(k int, how string) bool {
 					wsites, wrefs := c.CallsTo(nil, s.Unit.Obj)
 					good := len(wrefs) == 0 && len(wsites) > 0
 					var sub []Obligation
@@ -903,8 +883,46 @@ func init() {
 						}
 					}
 					if good {
-						obs = append(obs, mkOb(c, "PAIR.frame", s.Unit, construct, s.Call, Proved, fmt.Sprintf("acquire wrapper: returns nil exactly when the frame was pushed and nothing runs in between; the pairing is owed (and checked) at its %d call sites", len(wsites)), true))
+						obs = append(obs, mkOb(c, "PAIR.frame", s.Unit, construct, s.Call, Proved, fmt.Sprintf("%s; the pairing is owed (and checked) at its %d call sites", how, len(wsites)), true))
 						obs = append(obs, sub...)
+						return true
+					}
+					return false
+				}
+				_ = judgeWrapper
+				if errObj == nil {
+					// `func (env) pushFrame(fun) error { return env.Runtime.Stack.PushFID(…) }`: the push and
+					// nothing else, its error handed on as it is
+					if rs, isRet := fc.Node(loc).(*ast.ReturnStmt); isRet && len(rs.Results) == 1 && ast.Unparen(rs.Results[0]) == ast.Expr(s.Call) &&
+						s.Lit == nil && s.Unit.Decl != nil && len(s.Unit.Decl.Body.List) == 1 && !s.Unit.Obj.Exported() && rok {
+						if judgeWrapper(0, "forwarding wrapper: the push is all it does and PushFID's error is its result") {
+							continue
+						}
+					}
+					obs = append(obs, mkOb(c, "PAIR.frame", s.Unit, construct, s.Call, Violated, "PushFID's error result is not bound to a variable that is tested", true))
+					continue
+				}
+				isRelease := func(d *ast.DeferStmt) bool {
+					if originOf(Callee(info, d.Call)) != pop {
+						return false
+					}
+					se, ok := ast.Unparen(d.Call.Fun).(*ast.SelectorExpr)
+					if !ok {
+						return false
+					}
+					q, qok := PathOf(info, se.X)
+					return rok && qok && SamePath(recv, q)
+				}
+				ok, why, _ := acquireThenDefer(fc, loc, isRelease, errObj)
+				if ok {
+					obs = append(obs, mkOb(c, "PAIR.frame", s.Unit, construct, s.Call, Proved, "on the err==nil edge the next effectful node is `defer Pop()` on the same stack", true))
+					continue
+				}
+				// an acquire wrapper: `func (env) pushFrame(fun) *LVal { err := PushFID(...); if err != nil
+				// { return env.Error(err) }; return nil }` hands the pushed frame to its caller — it returns
+				// nil exactly when the frame is held — and the pairing is owed at each of ITS call sites
+				if k, wok := acquireWrapperResult(c, fc, s, loc, errObj); wok && rok {
+					if judgeWrapper(k, "acquire wrapper: returns nil exactly when the frame was pushed and nothing runs in between") {
 						continue
 					}
 				}
